@@ -36,8 +36,7 @@ def recordAll (s : Store) (recs : List (Val × Merge)) : Store := recs.foldl rec
 def foldStep (ty : Nat) (acc : Option Val) (r : Val × Merge) : Option Val :=
   if r.1.ty = ty then
     match acc with
-    | some cur =>
-      if cur.truthy then (match r.2 cur r.1 with | .ok x => some x | .raise _ => acc) else some r.1
+    | some cur => (match r.2 cur r.1 with | .ok x => some x | .raise _ => acc)
     | none => some r.1
   else acc
 
@@ -51,23 +50,17 @@ theorem get_recordStep (s : Store) (r : Val × Merge) (ty : Nat) :
     cases hg : get s v.ty with
     | none => simp [get_put]
     | some cur =>
-      by_cases ht : cur.truthy
-      · simp only [ht, ↓reduceIte]
-        cases hm : m cur v with
-        | ok x => simp [get_put]
-        | raise e => simp [hg]
-      · simp [ht, get_put]
+      cases hm : m cur v with
+      | ok x => simp [hm, get_put]
+      | raise e => simp [hm, hg]
   · have hne : ¬ ty = v.ty := fun h => hty h.symm
     simp only [hty, ↓reduceIte]
     cases hg : get s v.ty with
     | none => simp [get_put, hne]
     | some cur =>
-      by_cases ht : cur.truthy
-      · simp only [ht, ↓reduceIte]
-        cases hm : m cur v with
-        | ok x => simp [get_put, hne]
-        | raise e => rfl
-      · simp [ht, get_put, hne]
+      cases hm : m cur v with
+      | ok x => simp [hm, get_put, hne]
+      | raise e => simp [hm]
 
 theorem get_recordAll (recs : List (Val × Merge)) (s : Store) (ty : Nat) :
     get (recordAll s recs) ty = recs.foldl (foldStep ty) (get s ty) := by
@@ -92,23 +85,20 @@ def leftFold : List (Val × (Val → Val → Val)) → Option Val
   | [] => none
   | (v0, _) :: rest => some (rest.foldl (fun acc r => r.2 acc r.1) v0)
 
-theorem foldStep_total (ty : Nat) (recs : List (Val × (Val → Val → Val)))
-    (htr : ∀ r ∈ recs, r.1.truthy = true ∧ ∀ a b, (r.2 a b).truthy = true) :
-    ∀ (acc : Val), acc.truthy = true →
+theorem foldStep_total (ty : Nat) (recs : List (Val × (Val → Val → Val))) :
+    ∀ (acc : Val),
       (recs.map (fun r => (r.1, total r.2))).foldl (foldStep ty) (some acc)
         = some ((recs.filter (fun r => r.1.ty = ty)).foldl (fun acc r => r.2 acc r.1) acc) := by
   induction recs with
-  | nil => intro acc _; rfl
+  | nil => intro acc; rfl
   | cons r rest ih =>
-    intro acc hacc
-    have hr := htr r (by simp)
-    have ih' := ih (fun r' hr' => htr r' (by simp [hr']))
+    intro acc
     simp only [List.map_cons, List.foldl_cons]
     by_cases hty : r.1.ty = ty
-    · simp only [foldStep, hty, ↓reduceIte, hacc, total, List.filter_cons, decide_true, List.foldl_cons]
-      exact ih' (r.2 acc r.1) (hr.2 acc r.1)
+    · simp only [foldStep, hty, ↓reduceIte, total, List.filter_cons, decide_true, List.foldl_cons]
+      exact ih (r.2 acc r.1)
     · simp only [foldStep, hty, ↓reduceIte, List.filter_cons, decide_false, Bool.false_eq_true]
-      exact ih' acc hacc
+      exact ih acc
 
 /-! ### merged view -/
 
